@@ -42,6 +42,105 @@ Proof.
   intros u v x Hx. rewrite convert_time_factor. apply Qmult_le_0_compat; [exact Hx|]. apply Qlt_le_weak, k_time_pos.
 Qed.
 
+Lemma turn_eqb_eq : forall a b, turn_eqb a b = true -> a = b.
+Proof. intros a b H. destruct a, b; try reflexivity; discriminate H. Qed.
+
+(* ------------------------------------------------------------------ the model's turn class is the specification's *)
+(* for ALL headings on which the code does not fail (any integers, not only 0..359) *)
+Definition angle_range : list Z := map (fun n => (Z.of_nat n - 180)%Z) (seq 0 361).
+Lemma in_angle_range : forall a, (-180 <= a <= 180)%Z -> In a angle_range.
+Proof.
+  intros a Ha. unfold angle_range. apply in_map_iff. exists (Z.to_nat (a + 180)). split; [lia|]. apply in_seq. lia.
+Qed.
+Lemma rows_in_range : forallb (fun r => (-180 <=? fst (fst r))%Z && (snd (fst r) <=? 180)%Z) turn_ranges = true.
+Proof. vm_compute. reflexivity. Qed.
+Lemma from_angle_sweep :
+  forallb (fun a => match from_angle a with Ok t => turn_eqb t (spec_class a) | _ => true end) angle_range = true.
+Proof. vm_compute. reflexivity. Qed.
+
+Lemma first_row_bounds : forall rows a nm,
+  first_row rows a = Some nm -> exists lo hi, In ((lo, hi), nm) rows /\ (lo <= a <= hi)%Z.
+Proof.
+  induction rows as [|[[lo hi] n] r IH]; intros a nm H; cbn in H; [discriminate|].
+  destruct ((lo <=? a)%Z && (a <=? hi)%Z) eqn:E.
+  - inversion H; subst. exists lo, hi. split; [left; reflexivity|]. apply andb_true_iff in E. lia.
+  - destruct (IH _ _ H) as (lo' & hi' & Hin & Hb). exists lo', hi'. split; [right; exact Hin | exact Hb].
+Qed.
+
+Lemma from_angle_range : forall a t, from_angle a = Ok t -> (-180 <= a <= 180)%Z.
+Proof.
+  intros a t H. unfold from_angle in H. destruct (first_row turn_ranges a) as [nm|] eqn:E; [|discriminate].
+  destruct (first_row_bounds _ _ _ E) as (lo & hi & Hin & Hb).
+  pose proof rows_in_range as Hr. rewrite forallb_forall in Hr. specialize (Hr _ Hin). cbn [fst snd] in Hr.
+  apply andb_true_iff in Hr. lia.
+Qed.
+
+Lemma from_angle_class : forall a t, from_angle a = Ok t -> t = spec_class a.
+Proof.
+  intros a t H. pose proof (from_angle_range a t H) as Hr.
+  pose proof from_angle_sweep as Hs. rewrite forallb_forall in Hs. specialize (Hs a (in_angle_range a Hr)).
+  rewrite H in Hs. apply turn_eqb_eq. exact Hs.
+Qed.
+
+Lemma bearing_cases : forall h1 h2 a,
+  bearing_to_destination h1 h2 = Ok a ->
+  let x := (start_heading h2 - end_heading h1)%Z in a = x \/ a = (x - 360)%Z \/ a = (x + 360)%Z.
+Proof.
+  intros h1 h2 a H x. unfold bearing_to_destination in H. fold x in H. unfold i16 in H.
+  destruct ((-32768 <=? x)%Z && (x <=? 32767)%Z); cbn [bind] in H; [|discriminate].
+  unfold wcmp_holds, wrap_hi_cmp, wrap_hi, wrap_sub, wrap_lo_cmp, wrap_lo, wrap_add in H.
+  destruct (180 <? x)%Z.
+  - destruct ((-32768 <=? x - 360)%Z && (x - 360 <=? 32767)%Z); [|discriminate]. inversion H. right. left. reflexivity.
+  - destruct (x <? -180)%Z.
+    + destruct ((-32768 <=? x + 360)%Z && (x + 360 <=? 32767)%Z); [|discriminate]. inversion H. right. right. reflexivity.
+    + inversion H. left. reflexivity.
+Qed.
+
+Lemma spec_angle_of : forall h1 h2 a,
+  (-180 <= a <= 180)%Z ->
+  (a = h2 - h1 \/ a = h2 - h1 - 360 \/ a = h2 - h1 + 360)%Z ->
+  spec_angle h1 h2 = (if (a =? 180)%Z then -180 else a)%Z.
+Proof.
+  intros h1 h2 a Hr Hc. unfold spec_angle.
+  destruct (a =? 180)%Z eqn:E.
+  - apply Z.eqb_eq in E. subst a.
+    assert (Hm : ((h2 - h1 + 180) mod 360 = 0)%Z).
+    { symmetry. destruct Hc as [Hc | [Hc | Hc]].
+      + apply (Z.mod_unique _ _ 1 0); lia.
+      + apply (Z.mod_unique _ _ 2 0); lia.
+      + apply (Z.mod_unique _ _ 0 0); lia. }
+    rewrite Hm. reflexivity.
+  - apply Z.eqb_neq in E.
+    assert (Hm : ((h2 - h1 + 180) mod 360 = a + 180)%Z).
+    { symmetry. destruct Hc as [Hc | [Hc | Hc]].
+      + apply (Z.mod_unique _ _ 0); lia.
+      + apply (Z.mod_unique _ _ 1); lia.
+      + apply (Z.mod_unique _ _ (-1)); lia. }
+    rewrite Hm. lia.
+Qed.
+
+Lemma model_turn_is_spec : forall h1 h2 a t,
+  bearing_to_destination h1 h2 = Ok a -> from_angle a = Ok t ->
+  t = spec_turn (end_heading h1) (start_heading h2).
+Proof.
+  intros h1 h2 a t Hb Hf. pose proof (from_angle_range a t Hf) as Hr.
+  pose proof (bearing_cases h1 h2 a Hb) as Hc. cbv zeta in Hc.
+  unfold spec_turn. rewrite (spec_angle_of _ _ a Hr Hc). rewrite (from_angle_class a t Hf).
+  destruct (a =? 180)%Z eqn:E; [|reflexivity]. apply Z.eqb_eq in E. subst a. reflexivity.
+Qed.
+
+Lemma get_delay_spec : forall (td : turn_delay Q) e1 e2 (d : Q),
+  get_delay QN td e1 e2 = Ok d -> spec_delay td e1 e2 = d.
+Proof.
+  intros td e1 e2 d H. unfold get_delay in H. change (T QN) with Q in *. unfold get_heading in H. unfold spec_delay.
+  destruct (nth_error (td_headings td) e1) as [h1|]; cbn [bind] in H; [|discriminate H].
+  destruct (nth_error (td_headings td) e2) as [h2|]; cbn [bind] in H; [|discriminate H].
+  destruct (bearing_to_destination h1 h2) as [a| | |] eqn:Eb; cbn [bind] in H; try discriminate H.
+  destruct (from_angle a) as [t| | |] eqn:Ef; cbn [bind] in H; try discriminate H.
+  rewrite <- (model_turn_is_spec h1 h2 a t Eb Ef).
+  destruct (table_get QN (td_table td) t) as [v|]; [|discriminate H]. inversion H. reflexivity.
+Qed.
+
 Definition slot (st : list Q) (i : nat) : Q := nth i st 0.
 
 Lemma names_differ : distance_name <> time_name.
@@ -153,6 +252,7 @@ Section Step.
     destruct (i_am inst) as [|td] eqn:Eam.
     - inversion H; subst st'. split; [exact Hw|]. split; [ring | reflexivity].
     - destruct (get_delay QN td e1 e2) as [delay| | |] eqn:Ed; cbn [bind] in H; try discriminate.
+      rewrite (get_delay_spec td e1 e2 delay Ed).
       rewrite Ham in H. apply (add_time_slots st st' _ _ Hw) in H. subst st'.
       split; [apply set_t_wf; exact Hw|]. split.
       { rewrite slot_set_same by (rewrite Hw; exact it_lt). reflexivity. }
@@ -290,16 +390,11 @@ Section Step.
   Proof.
     intros pair. unfold delay_inc. destruct (i_am inst) as [|td]; [apply Qle_refl|].
     destruct pair as [[e1 e2]|]; [|apply Qle_refl].
-    apply convert_time_nonneg. unfold raw_delay.
-    destruct (get_delay QN td e1 e2) as [dl| | |] eqn:E; try apply Qle_refl.
-    unfold get_delay in E. change (T QN) with Q in *.
-    destruct (get_heading (td_headings td) e1) as [h1| | |]; cbn [bind] in E; try discriminate E.
-    destruct (get_heading (td_headings td) e2) as [h2| | |]; cbn [bind] in E; try discriminate E.
-    destruct (bearing_to_destination h1 h2) as [ang| | |]; cbn [bind] in E; try discriminate E.
-    destruct (from_angle ang) as [tn| | |]; cbn [bind] in E; try discriminate E.
-    change (T QN) with Q in *.
-    destruct (table_get QN (td_table td) tn) as [v|] eqn:Et; cbn [bind] in E; [|discriminate E].
-    inversion E; subst dl. destruct (table_get_in _ _ _ Et) as [k' Hin]. exact (Hdelay k' v Hin).
+    apply convert_time_nonneg. unfold raw_delay, spec_delay.
+    destruct (nth_error (td_headings td) e1) as [h1|]; [|apply Qle_refl].
+    destruct (nth_error (td_headings td) e2) as [h2|]; [|apply Qle_refl].
+    destruct (table_get QN (td_table td) (spec_turn (end_heading h1) (start_heading h2))) as [v|] eqn:Et; [|apply Qle_refl].
+    destruct (table_get_in _ _ _ Et) as [k' Hin]. exact (Hdelay k' v Hin).
   Qed.
 
   Lemma step_monotone : forall d e o st et,
@@ -482,9 +577,6 @@ Proof.
   intros h1 h2 H1 H2. pose proof turn_sweep as H. rewrite forallb_forall in H.
   specialize (H h1 (in_heading_range h1 H1)). rewrite forallb_forall in H. exact (H h2 (in_heading_range h2 H2)).
 Qed.
-
-Lemma turn_eqb_eq : forall a b, turn_eqb a b = true -> a = b.
-Proof. intros a b H. destruct a, b; try reflexivity; discriminate H. Qed.
 
 (* the generated table names only known variants, and lists them all *)
 Lemma turn_table_wellformed :
